@@ -218,7 +218,16 @@ fn writer_loop<D: Distance>(world: &World, index: u16, metric: Metric, dims: usi
     let _ = pool(1);
     // a service keeps one Writer for the life of the index: hidden state in it must follow commits and aborts
     let long_lived = seed & 0x200 != 0;
-    let kept = Writer::<D>::new(adb::<D>(world.db), index, dims);
+    // half of the cases configure a temp directory: whatever an aborted or cancelled build leaves there must not
+    // find its way into the next transaction
+    let tmp = if seed & 0x2000 != 0 { Some(tempfile::tempdir_in(engine::scratch_root()).unwrap()) } else { None };
+    if tmp.is_some() {
+        c.inc("cases_with_configured_tmpdir");
+    }
+    let mut kept = Writer::<D>::new(adb::<D>(world.db), index, dims);
+    if let Some(t) = &tmp {
+        kept.set_tmpdir(t.path());
+    }
     c.inc(if long_lived { "cases_with_long_lived_writer" } else { "cases_with_fresh_writers" });
     while v < versions && !sh.stop.load(Ordering::SeqCst) {
         v += 1;
@@ -229,11 +238,14 @@ fn writer_loop<D: Distance>(world: &World, index: u16, metric: Metric, dims: usi
         sh.phase.store(1, Ordering::SeqCst);
         let mut wtxn = world.env.write_txn().unwrap();
         let mut model = committed_model.clone();
-        let fresh;
+        let mut fresh;
         let w: &Writer<D> = if long_lived {
             &kept
         } else {
             fresh = Writer::<D>::new(adb::<D>(world.db), index, dims);
+            if let Some(t) = &tmp {
+                fresh.set_tmpdir(t.path());
+            }
             &fresh
         };
         // "swap" versions keep the number of items (and hence the size of every serialized id set)
@@ -532,8 +544,8 @@ pub fn run(args: &Args) {
         .set("counters", c.to_json())
         .set("sigs", J::Arr(sigs.iter().map(|s| J::s(format!("{s:x}"))).collect()))
         .set("samples", J::Arr(samples))
-        .set("rule", J::s("case = one environment, one writer thread producing versions (1-30 updates + sentinel + build in a local rayon pool of 1-4 threads with seeded noise at hook points, then commit; or abort after a successful or cancelled build; or a staged commit without a build, after which the index must refuse to open until the next built commit — a reader may get NeedBuild only while such a commit can be what its snapshot shows; a quarter of the cases without bystander start from an empty built index that is bulk-loaded through append_item in a staged commit) and 2-6 reader threads opening snapshots at random moments; in half of the cases the environment also holds a bystander index (built once, empty or 6 items, never written again; every snapshot must show it whole) followed in key order by a noise index the writer stages items into, builds and clears inside the same transactions; each snapshot is identified by its sentinel, must lie between the last commit that returned before the open and the last commit started, and is compared as a whole with that version's model (ids, vectors, C01 walker on a raw dump through the same read txn, exact queries), again after holding it across later commits; non-trivial+distinct = distinct (version observed, writer phase at open) pairs"))
-        .set("required", J::Arr(["snapshots", "snapshots_writer_phase_building", "snapshots_writer_phase_committing", "snapshots_held_across_commits", "swap_versions", "staged_commits", "staged_appends", "snapshots_of_a_staged_state_refused", "bystander_snapshots", "cases_with_empty_bystander", "noise_index_staged", "cases_light_readers", "versions_committed", "aborts_after_successful_build", "aborts_after_cancelled_build", "abort_dumps_compared"].iter().map(|s| J::s(*s)).collect()))
+        .set("rule", J::s("case = one environment, one writer thread producing versions (1-30 updates + sentinel + build in a local rayon pool of 1-4 threads with seeded noise at hook points, then commit; or abort after a successful or cancelled build; or a staged commit without a build, after which the index must refuse to open until the next built commit — a reader may get NeedBuild only while such a commit can be what its snapshot shows; a quarter of the cases without bystander start from an empty built index that is bulk-loaded through append_item in a staged commit) and 2-6 reader threads opening snapshots at random moments; half of the cases configure a temp directory on the Writer; in half of the cases the environment also holds a bystander index (built once, empty or 6 items, never written again; every snapshot must show it whole) followed in key order by a noise index the writer stages items into, builds and clears inside the same transactions; each snapshot is identified by its sentinel, must lie between the last commit that returned before the open and the last commit started, and is compared as a whole with that version's model (ids, vectors, C01 walker on a raw dump through the same read txn, exact queries), again after holding it across later commits; non-trivial+distinct = distinct (version observed, writer phase at open) pairs"))
+        .set("required", J::Arr(["snapshots", "snapshots_writer_phase_building", "snapshots_writer_phase_committing", "snapshots_held_across_commits", "swap_versions", "cases_with_configured_tmpdir", "staged_commits", "staged_appends", "snapshots_of_a_staged_state_refused", "bystander_snapshots", "cases_with_empty_bystander", "noise_index_staged", "cases_light_readers", "versions_committed", "aborts_after_successful_build", "aborts_after_cancelled_build", "abort_dumps_compared"].iter().map(|s| J::s(*s)).collect()))
         .set("wall_s", J::Num(t0.elapsed().as_secs_f64()));
     emit("SUMMARY", &j);
 }
